@@ -141,6 +141,11 @@ def scenarios(tier: str):
                    tags=('quick', 'faults-only'))
     big.fault_kinds = {'f.flush', 'f.close.w', 'os.fsync', 'sql.commit', 'os.remove', 'fcntl'}
     out.append(big)
+    big2 = Scenario('topack-1200-objects-nofsync@empty', [], ('topack', tuple(range(5, 1205)), False, False, True, ('kw', ('do_fsync', False))),
+                    config={'pack_size_target': 4 * 1024 ** 3}, universe=universe5() + [b'obj-%05d' % i for i in range(1200)],
+                    tags=('quick', 'faults-only', 'nofsync'))
+    big2.fault_kinds = big.fault_kinds
+    out.append(big2)
     out.append(Scenario('clean@uncommitted-rows', PRE['uncommitted-rows'], ('clean', False), universe=universe5(), tags=('quick', 'uncommitted')))
     out.append(Scenario('pack@uncommitted-rows', PRE['uncommitted-rows'], ('pack', 'NO', True, True), universe=universe5(), tags=('uncommitted',)))
     out.append(Scenario('add-damaged-truncated-copy@mixed', PRE['mixed'] + [('damage', 2)], ('adds', 2), universe=universe5(), tags=('quick', 'damaged')))
